@@ -245,3 +245,12 @@ Theorem zone_filter_accepts_only_dot_suffixes :
   zone = [46] \/ zone = [] \/ nm = zone \/ exists pre, nm = pre ++ [46] ++ zone.
 Proof. exact NameInZone_true_shape. Qed.
 Print Assumptions zone_filter_accepts_only_dot_suffixes.
+
+(* ... and on canonical names with plain labels (no dot, no backslash inside a label; [pres] = labels leaf
+   first, a dot after each, "." for the root) it IS the model's zone test: the Answer-section filter of the
+   code and [is_sub] of [relayed_answer] / [containment] are the same function there. *)
+Theorem zone_filter_is_model_is_sub :
+  forall fuel z n, (0 < fuel)%nat -> plain (canon z) -> plain (canon n) ->
+  go_NameInZone fuel (pres (canon n)) (pres (canon z)) = Some (is_sub z n).
+Proof. exact NameInZone_is_sub. Qed.
+Print Assumptions zone_filter_is_model_is_sub.
